@@ -243,6 +243,16 @@ impl<'a> Checker<'a> {
                 return false;
             };
             if s(&tx, "hash") != th || s(&tx, "blockHash") != hash || qty(&tx["blockNumber"]) != n || qty(&tx["transactionIndex"]) != i as u64 {
+                // the invalid-transaction nonce defect across blocks: the transaction handed in here was
+                // invalid (no gas, nonce not consumed) and the identical inscription was repeated in a
+                // later block, got the same hash and replaced this record
+                let handed_invalid = !is_init && handed.get(i).map(|(r, _)| qty(&r["gasUsed"]) == 0 && s(r, "status") == "0x0").unwrap_or(false);
+                let other = qty(&tx["blockNumber"]);
+                let listed_there = other > n && d.inst.call("eth_getBlockByNumber", json!([format!("0x{:x}", other), false])).ok().and_then(|b| b["transactions"].as_array().map(|a| a.iter().any(|x| x.as_str() == Some(th.as_str())))).unwrap_or(false);
+                if s(&tx, "hash") == th && handed_invalid && listed_there {
+                    self.fail(d, "duplicate-tx-hash-after-invalid-tx:across-blocks", format!("transaction {} was invalid in block {} (gasUsed 0, nonce not consumed); the identical inscription repeated in block {} got the same hash and replaced its record", th, n, other), json!({"tx": tx, "handed_in_block": n}));
+                    return false;
+                }
                 self.fail(d, "tx-position", format!("transaction {} is listed at ({}, {}) but says ({}, {}, {})", th, n, i, tx["blockNumber"], tx["transactionIndex"], tx["blockHash"]), json!({"tx": tx}));
                 return false;
             }
